@@ -26,6 +26,7 @@ import Golib.Proof.C05Arr
 import Golib.Proof.C05Stream
 import Golib.Proof.C05U32
 import Golib.Proof.C05Fuzzy
+import Golib.Proof.C05Trans
 
 namespace Golib.C05
 open Golib
@@ -506,5 +507,49 @@ example : (Trie.ofPatterns [[97, 97], [97, 97, 97]]).bind (fun t => t.fuzzySearc
 mirrors; a revert of F3 / F11 or a single-token change in one of them breaks this obligation
 independently of the random search. -/
 theorem c05_facts : SourceFacts := c05_facts_holds
+
+/-! ### Regenerated tie (wave 8): `algz/trie.go: runeLen` translated by `go2lean`
+
+`Golib.Gen.Trans.C05.runeLen` is regenerated from the tree under verification on every run
+(`Golib/Gen/TransC05.lean`; the value `utf8.RuneLen(r)` delivers is its parameter `k`).  The code's
+`rune` is `int32` (`BitVec 32`); the model's rune is the integer `r.toInt`.  (Every other function
+of `algz/trie.go` the C05 model mirrors is a method of `*Trie`, whose struct holds `*trieNode`
+pointers: outside the translator's subset; they stay tied by `c05_facts`, the correspondence check
+and the source hash.) -/
+
+/-- TIE: the translated `runeLen`, given what `utf8.RuneLen` returns for `r`, equals the model's
+`runeWidth` (the DFS depth increment of `PrefixSearch` / `FuzzySearch`, F3) for every `int32`
+rune; it cannot panic. -/
+theorem c05_trans_runeLen (r : BitVec 32) :
+    Golib.Gen.Trans.C05.runeLen r (Utf8.runeLen r.toInt) = .ok (runeWidth r.toInt) :=
+  trans_runeLen_eq r
+
+/-- The same without the standard-library model: for EVERY value `k` the call `utf8.RuneLen(r)`
+could deliver, the translated `runeLen` is 1 on a negative rune (the private symbol of an
+invalid byte, F11) and `k` otherwise. -/
+theorem c05_trans_runeLen_any (r : BitVec 32) (k : Int) :
+    Golib.Gen.Trans.C05.runeLen r k = .ok (if r.toInt < 0 then 1 else k) :=
+  trans_runeLen_any r k
+
+/-- The clause the DFS relies on, directly on the generated definition: for every rune `r` that
+`decodeRune` produces on a byte string (and that fits `int32`, as every decoded rune does), the
+translated `runeLen` returns the number of bytes `writeRune` emits for it — so truncating the
+buffer by it removes exactly that rune. -/
+theorem c05_trans_runeLen_written (bs : List Nat) (hb : Bytes bs) (r : BitVec 32)
+    (hr : ∃ st ∈ decodeAll bs, st.1 = r.toInt) :
+    Golib.Gen.Trans.C05.runeLen r (Utf8.runeLen r.toInt)
+      = .ok (((writeRune r.toInt).length : Nat) : Int) := by
+  obtain ⟨st, hst, he⟩ := hr
+  rw [c05_trans_runeLen, ← he, decodeAll_runeWidth bs hb st hst]
+
+/-- Non-vacuity: 'a' is 1 byte, U+00E9 2, U+4E16 3, U+1F600 4, the private symbol of the invalid
+byte 0xFF (−256) 1 — where `utf8.RuneLen` itself says −1. -/
+example : Golib.Gen.Trans.C05.runeLen 97#32 (Utf8.runeLen 97) = .ok 1 ∧
+    Golib.Gen.Trans.C05.runeLen 233#32 (Utf8.runeLen 233) = .ok 2 ∧
+    Golib.Gen.Trans.C05.runeLen 19990#32 (Utf8.runeLen 19990) = .ok 3 ∧
+    Golib.Gen.Trans.C05.runeLen 128512#32 (Utf8.runeLen 128512) = .ok 4 ∧
+    Golib.Gen.Trans.C05.runeLen (BitVec.ofInt 32 (-256)) (Utf8.runeLen (-256)) = .ok 1 ∧
+    Utf8.runeLen (-256) = -1 := by
+  refine ⟨?_, ?_, ?_, ?_, ?_, ?_⟩ <;> decide +kernel
 
 end Golib.C05
